@@ -26,14 +26,18 @@ class Chooser:
         return pivot
 
 
-def run_kwik(D, s, script):
+def run_kwik(D, s, script, season=False):
     ds = Dataset.from_raw_list([[set(b) for b in r] for r in D])
     sc = ScoringScheme(s)
     ch = Chooser(script)
+    alg = KwikSortRandom()
+    if season:      # the object has served before (with pivots drawn by the real generator: the script is for the judged call only)
+        from algos import seasoned
+        seasoned(alg, D, s)
     old = kq.choice
     kq.choice = ch
     try:
-        cons = KwikSortRandom().compute_consensus_rankings(ds, sc, True)
+        cons = alg.compute_consensus_rankings(ds, sc, True)
     finally:
         kq.choice = old
     assert len(cons.consensus_rankings) == 1
@@ -41,6 +45,7 @@ def run_kwik(D, s, script):
 
 
 class Kwik(Suite):
+    seasoned_rate = 0.1     # share of the cases run on algorithm objects that have served before (algos.seasoned)
     name = "kwik"
     imports = ["Scheme", "Rank", "KwikSort", "Judge.JC11"]
     judge = "judge_kwik"
@@ -95,13 +100,13 @@ class Kwik(Suite):
         return cases
 
     def run(self, case):
-        ds, ch, cons = run_kwik(case["D"], case["s"], case["script"])
+        ds, ch, cons = run_kwik(case["D"], case["s"], case["script"], bool(case.get("seasoned")))
         out = {"D": gen.observe(ds), "U0": ch.first, "cons": cons, "calls": ch.i, "steps": ch.steps}
         if "target" in case:
             out["target"] = case["target"]
         else:
             # candidate target: the answer under the all-zero script; judged in Coq only if the preferences cohere with it
-            _, _, ref = run_kwik(case["D"], case["s"], [0] * len(case["script"]))
+            _, _, ref = run_kwik(case["D"], case["s"], [0] * len(case["script"]), bool(case.get("seasoned")))
             out["target"] = ref
         return out
 
